@@ -409,6 +409,22 @@ pub struct VmInit {
     /// name replace earlier ones)
     pub inputs: Vec<(String, Lit)>,
     pub limit: usize,
+    /// deep nesting, stored compactly: when > 0 the whole `program` is one item wrapped in this many
+    /// nested blocks (`[[[ ... program ... ]]]`); expanded by `effective_program`
+    #[serde(default)]
+    pub wrap: usize,
+}
+
+/// The program actually loaded: `program`, or `program` wrapped in `wrap` nested blocks.
+pub fn effective_program(init: &VmInit) -> Vec<Prog> {
+    if init.wrap == 0 {
+        return init.program.clone();
+    }
+    let mut p = Prog::B(init.program.clone());
+    for _ in 1..init.wrap {
+        p = Prog::B(vec![p]);
+    }
+    vec![p]
 }
 
 /// Build the real state through the generated builder. `Err` = the builder
@@ -419,7 +435,7 @@ pub fn build_real(init: &VmInit) -> Result<PushState, StackError> {
         init.int.clone(),
         init.float.iter().map(|f| OrderedFloat(f.get())).collect(),
         init.bool.clone(),
-        init.program.iter().map(to_real).collect(),
+        effective_program(init).iter().map(to_real).collect(),
         &init.inputs,
         init.limit,
     )
